@@ -24,7 +24,13 @@ MANIFEST = dict(
          'change nothing; IMapIterator: for every interleaving of arrivals (each index once), next() calls and set_length(n) at any '
          'point, next() returns obj_0..obj_{n-1} in order (error items raise at their own position, iteration continues) then '
          'StopIteration, never earlier; IMapUnorderedIterator releases exactly the arrived items in arrival order; starmap/apply '
-         'corollaries. Independence of handles: no mutable class attributes, per-instance containers (structural theorem) and multi-handle interleavings judged per handle. The index arithmetic and branch structure of _map_async / MapResult.__init__/_set/_ack and the bodies of '
+         'corollaries. imap/imap_unordered with chunksize > 1 (positive theorem): for every interleaving of chunk arrivals, set_length and next() '
+         'calls the consumer of the flattening generator sees the values of the chunks before the first failing one in input order '
+         '(arrival order of chunks for imap_unordered), then that chunk\'s error, then only StopIteration, and StopIteration never '
+         'before all of it / before every chunk arrived and the length was announced; all chunks good and pulled enough = exactly '
+         'the sequential results. Failing map: with ACKs interleaved anywhere, get() re-raises the record of chunk j = the first '
+         'failing chunk handled, j < number of chunks of this job, chunk j = inputs [j*k,(j+1)*k) of this call, error callback once. '
+         'Independence of handles: no mutable class attributes, per-instance containers (structural theorem) and multi-handle interleavings judged per handle. The index arithmetic and branch structure of _map_async / MapResult.__init__/_set/_ack and the bodies of '
          'IMapIterator._set/_set_length, IMapUnorderedIterator._set are regenerated from pool.py on every run and proved equal to the model. REFUTED (proved by witness, reproduced on the real code): with '
          'chunksize > 1 an error chunk ends the imap/imap_unordered generator -- the remaining items are never delivered; '
          'outside the property but documented: an explicit chunksize <= 0 makes map return [None]*n.',
@@ -427,6 +433,30 @@ def boundary_cases():
             expect += [['yield', x] for x in v] if g == 'good' else [['raise', v]]
         out.append(dict(t='flat', unordered=False, input=l, cs=2, ops=ops, kind='clean', expect=expect,
                         nbad=0 if badpos is None else 1))
+    # chunked imap / imap_unordered (theorems C02_imap_chunked_in_order, C02_imapu_chunked_arrival_order):
+    # every arrival order of 3 chunks x failing chunk none/first/middle/last x every position of
+    # set_length, a next() after every event, direct and cache-guarded delivery
+    for unordered in (False, True):
+        for order in itertools.permutations(range(3)):
+            for badpos in (None, 0, 1, 2):
+                for lenpos in range(4):
+                    l = list(range(5))
+                    items = [['good', [fval(x) for x in l[i * 2:(i + 1) * 2]]] for i in range(3)]
+                    if badpos is not None:
+                        items[badpos] = ['bad', 700 + badpos]
+                    d = 'd' if lenpos % 2 else ''
+                    evs = [[d + 'set', i, items[i]] for i in order]
+                    evs.insert(lenpos, ['len', 3])
+                    ops = []
+                    for e in evs:
+                        ops += [e, ['next']]
+                    ops += [['next']] * 7
+                    seq = items if not unordered else [items[i] for i in order]
+                    expect = []
+                    for g, v in seq:
+                        expect += [['yield', x] for x in v] if g == 'good' else [['raise', v]]
+                    out.append(dict(t='flat', unordered=unordered, input=l, cs=2, ops=ops, kind='clean',
+                                    expect=expect, nbad=0 if badpos is None else 1))
     out.append(dict(t='star', star=False, a=10, b=1, c=[1, 2, 3]))
     out.append(dict(t='star', star=True, a=100, b=1, c=[[1, 2], [3, 4], [5, 6]]))
     out.append(dict(t='star', star=False, a=1, b=0, c=[]))
@@ -604,6 +634,40 @@ def monitor(c, o):
                 seen += 1
             if op[0] == 'get' and seen < nset and x[0] != 'timeout':
                 return ('C02:map-ready-before-last-chunk', 'get() returned %s after %d of %d chunks' % (x, seen, nset))
+    if t == 'flat' and c.get('kind') == 'clean':
+        # what the THEOREMS say the code does (C02_imap_chunked_in_order/_complete and the unordered
+        # twins): the values of the chunks before the first failing one (input order, resp. arrival
+        # order), then that chunk's error, then only StopIteration -- and StopIteration only after all
+        # of it.  Computed here from the case alone, independently of the Coq model.
+        thm = []
+        for x in c['expect']:
+            thm.append(x)
+            if x[0] == 'raise':
+                break
+        got = next_outputs(c, o)
+        k = 0
+        while k < len(got) and got[k] != ['stop']:
+            k += 1
+        arrivals = [op[1] for op in c['ops'] if op[0] in ('set', 'dset')]
+        tail = len(c['input']) + 2
+        wellformed = len(set(arrivals)) == len(arrivals) and [op[1] for op in c['ops'] if op[0] == 'len'] == [len(arrivals)] \
+            and sorted(arrivals) == list(range(nchunks(len(c['input']), c['cs'])))
+        complete = len(c['ops']) >= tail and all(op[0] == 'next' for op in c['ops'][-tail:])
+        bad = None
+        if not wellformed:
+            pass
+        elif got[:k] != thm[:k] or any(x != ['stop'] for x in got[k:]):
+            bad = 'is not a prefix of the expected sequence followed by StopIteration only'
+        elif k < len(got) and k != len(thm):
+            bad = 'StopIteration after %d of %d outputs' % (k, len(thm))
+        elif complete and not (k == len(thm) and len(got) > k):
+            bad = 'everything arrived and the consumer pulled %d more times, yet it saw only %d of %d outputs / no StopIteration' \
+                  % (len(c['input']) + 2, k, len(thm))
+        if bad:
+            return ('C02:imap-chunked-differs-from-theorem',
+                    '%s(chunksize=%d) over %s (ops %s): consumer saw %s, which %s; proved behaviour of the generator: %s then '
+                    'StopIteration' % ('imap_unordered' if c['unordered'] else 'imap', c['cs'], c['input'],
+                                       json.dumps(c['ops']), got, bad, thm))
     if t in ('imap', 'flat') and c.get('kind') == 'clean':
         got = next_outputs(c, o)
         want = c['expect'] + [['stop']]
